@@ -621,7 +621,39 @@ func (s *obSuite) opRecv() {
 	s.under.mode, s.under.lastAck = under, nil
 	s.nstub++
 	s.under.stubAck = []byte(fmt.Sprintf("stub-%d", s.nstub))
-	packet := obPacket(c, amt.String(), sndStr, rcvStr, uint64(s.nstub))
+	// the amount is a string in the packet; ICS-20 (sdkmath.NewIntFromString, base 0) accepts more spellings than plain
+	// decimal: every component must read the same number out of it
+	amtStr := amt.String()
+	if r.Intn(6) == 0 {
+		b := amt.BigInt()
+		switch r.Intn(8) {
+		case 0:
+			amtStr = "0x" + b.Text(16)
+		case 1:
+			amtStr = "0X" + strings.ToUpper(b.Text(16))
+		case 2:
+			amtStr = "0" + b.Text(8) // a leading zero means octal
+		case 3:
+			amtStr = "0o" + b.Text(8)
+		case 4:
+			amtStr = "0b" + b.Text(2)
+		case 5:
+			if len(amtStr) > 1 {
+				amtStr = amtStr[:1] + "_" + amtStr[1:]
+			}
+		case 6:
+			amtStr = "+" + amtStr
+		default:
+			if len(amtStr) > 3 {
+				amtStr = amtStr[:len(amtStr)-3] + "_" + amtStr[len(amtStr)-3:]
+			}
+		}
+		if v, ok := sdkmath.NewIntFromString(amtStr); !ok || !v.Equal(amt) {
+			panic("generator: amount spelling " + amtStr + " does not read as " + amt.String())
+		}
+		s.stat["gen:amount-spelling"]++
+	}
+	packet := obPacket(c, amtStr, sndStr, rcvStr, uint64(s.nstub))
 
 	preCs, preOb, pre := s.cs.modState(), s.obState(), w.Snapshot()
 	cctx, write := w.Ctx.CacheContext()
